@@ -34,12 +34,12 @@ def tag_sites(F):
             continue
         for c in fn.calls():
             nm = short(c.callee)
-            if nm not in ("write_val", "store", "stack_store", "load", "stack_load"):
+            if nm not in ("write_val", "store", "stack_store", "load", "stack_load", "uload8", "sload8", "istore8"):
                 continue
             if nm != "write_val" and "cranelift" not in c.callee:
                 continue
             chains = [fn.chain_operand(a, depth=12) for a in c.args]
-            off_idx = {"write_val": 3, "store": 4, "stack_store": 3, "load": 4, "stack_load": 3}[nm]
+            off_idx = {"write_val": 3, "store": 4, "stack_store": 3, "load": 4, "stack_load": 3, "uload8": 4, "sload8": 4, "istore8": 4}[nm]
             if off_idx < len(chains) and FA.chain_has_call(chains[off_idx], "discriminant_offset"):
                 out.append((fn, c, nm, chains))
     return out
@@ -57,7 +57,10 @@ def r02a(ctx, run):
         owner = strip_generics(fn.parent or fn.path)
         idx = counts.get((owner, nm), 0)
         counts[(owner, nm)] = idx + 1
-        if nm in ("load", "stack_load"):
+        if nm in ("uload8", "sload8", "istore8"):
+            # Cranelift's explicit one-byte memory operations move exactly one byte whatever the register type
+            run.ok(c.site(), "%s: %s at discriminant_offset moves one byte" % (short(owner), nm))
+        elif nm in ("load", "stack_load"):
             ty = chains[1]
             good = is_i8_const(ty)
             run.check(good, c.site(), "%s: tag load of type %s at discriminant_offset" % (short(owner), show_chain(ty)), owner, "tag-load#%d" % idx, c.file, c.ln,
